@@ -5,7 +5,7 @@ From Coq Require Import ZArith List Bool Lia Reals.
 Import ListNotations.
 Require Import MV.Lib.Base MV.C14.Model MV.C14.Gen MV.C14.ProofsLib.
 Require Import MV.C14.ProofsGrid MV.C14.ProofsTri MV.C14.ProofsTorus MV.C14.ProofsSphere MV.C14.ProofsCyl
-               MV.C14.ProofsRing MV.C14.ProofsPoly MV.C14.ProofsTables MV.C14.ProofsCoords.
+               MV.C14.ProofsRing MV.C14.ProofsPoly MV.C14.ProofsTables MV.C14.ProofsCoords MV.C14.ProofsBisect.
 Open Scope Z_scope.
 
 Ltac conjs := repeat match goal with |- _ /\ _ => split end.
@@ -98,7 +98,8 @@ Lemma all_topology :
      disk_surface (ring_nverts N false k) (ring_faces N false k) (map (fun t => t + 1) (zrange (N * k)))) /\
   (forall N k, 1 <= N * k ->
      disk_surface (flat_ring_nverts N k) (flat_ring_faces N k) (map (fun t => t) (zrange (N * k + 2)))) /\
-  (forall nu nv u, 2 <= nu -> 2 <= nv -> connected (unit_triangle_nverts nu nv u) (unit_triangle_faces nu nv u)).
+  (forall nu nv u, 2 <= nu -> 2 <= nv ->
+     disk_surface (unit_triangle_nverts nu nv u) (unit_triangle_faces nu nv u) (tri_border_cycle nu nv)).
 Proof.
   conjs; intros; unfold disk_surface, closed_surface; conjs.
   - apply grid_border; auto.
@@ -125,7 +126,31 @@ Proof.
   - rewrite flat_ring_faces_eq. apply fan_border; lia.
   - rewrite flat_ring_nverts_eq, flat_ring_faces_eq by lia. apply fan_connected; lia.
   - rewrite flat_ring_nverts_eq, flat_ring_faces_eq by lia. apply fan_euler; lia.
+  - apply tri_border; auto.
   - apply tri_connected; auto.
+  - apply tri_euler; auto.
+Qed.
+
+(* ---------------------------------------------------------------- 3b. every vertex umbrella is one fan (vertex manifoldness) *)
+Lemma all_vertex_manifold :
+  (forall nu nv t u, 2 <= nu -> 2 <= nv -> vertex_manifold (unit_grid_nverts nu nv t u) (unit_grid_faces nu nv t u)) /\
+  (forall nu nv u, 2 <= nu -> 2 <= nv -> vertex_manifold (unit_triangle_nverts nu nv u) (unit_triangle_faces nu nv u)) /\
+  (forall M m t, 3 <= M -> 3 <= m -> vertex_manifold (torus_nverts M m t) (torus_faces M m t)) /\
+  (forall n L, 1 <= n -> 3 <= L -> vertex_manifold (sphere_uv_nverts n L) (sphere_uv_faces n L)) /\
+  (forall N c, 3 <= N -> vertex_manifold (cylinder_nverts N c) (cylinder_faces N c)) /\
+  (forall N o k, 3 <= N -> 1 <= k -> vertex_manifold (ring_nverts N o k) (ring_faces N o k)) /\
+  (forall N k, 1 <= N * k -> vertex_manifold (flat_ring_nverts N k) (flat_ring_faces N k)).
+Proof.
+  conjs; intros.
+  - apply grid_vertex_manifold; auto.
+  - apply tri_vertex_manifold; auto.
+  - apply torus_vertex_manifold; auto.
+  - apply sphere_vertex_manifold; auto.
+  - apply cyl_vertex_manifold; auto.
+  - assert (HK : 3 <= N * k) by nia. rewrite ring_nverts_eq by lia. destruct o.
+    + rewrite ring_faces_open by lia. apply fan_vertex_manifold. lia.
+    + rewrite ring_faces_closed by lia. apply cfan_vertex_manifold. lia.
+  - rewrite flat_ring_nverts_eq by lia. rewrite flat_ring_faces_eq. apply fan_vertex_manifold. lia.
 Qed.
 
 (* ---------------------------------------------------------------- 4. the constant-table solids (finite domain): everything,
@@ -227,7 +252,15 @@ Lemma all_on_surface :
   (forall (P1 P2 : vec R) (radius : R) N caps, (0 < dot3 (vsub Rops P2 P1) (vsub Rops P2 P1))%R ->
      let a := vnormalized Rops (vsub Rops P2 P1) in
      exists ringpts, cylinder_coords Rops P1 P2 radius N caps = ringpts ++ (if caps then [P1; P2] else []) /\
-       Forall (fun p => exists P, (P = P1 \/ P = P2) /\ dot3 (vsub Rops p P) a = 0%R /\ dist2 p P = (radius * radius)%R) ringpts).
+       Forall (fun p => exists P, (P = P1 \/ P = P2) /\ dot3 (vsub Rops p P) a = 0%R /\ dist2 p P = (radius * radius)%R) ringpts) /\
+  (forall N d k, exists rim, flat_ring_coords Rops N d k = (0, 0, 0)%R :: rim /\ Forall on_unit_circle rim) /\
+  (forall n (radius : R) b, 1 <= n -> Forall (fun p => dot3 p p = (radius * radius)%R) (sphere_fibonacci_coords Rops n radius b)) /\
+  (forall k (center : vec R) (radius : R) v, (0 < dot3 (vsub Rops v center) (vsub Rops v center))%R ->
+     dist2 (icosphere_project Rops k center radius v) center = (radius * radius)%R) /\
+  (forall k (center : vec R) (radius : R),
+     icosphere_base_faces = icosahedron_faces false /\ icosphere_base_nverts = icosahedron_nverts false /\
+     icosphere_base_coords Rops k center radius = icosahedron_coords Rops center radius false /\
+     icosphere_rounds k = k /\ icosphere_loop_passes = 1).
 Proof.
   conjs; intros.
   - apply sphere_uv_on_sphere.
@@ -242,7 +275,27 @@ Proof.
   - apply hexahedron_4pts_corners.
   - apply ring_rim_on_circle.
   - apply cylinder_on_surface; auto.
+  - apply flat_ring_rim_on_circle.
+  - apply sphere_fibonacci_on_sphere; auto.
+  - apply icosphere_project_on_sphere; auto.
+  - apply icosphere_base.
 Qed.
+
+(* ---------------------------------------------------------------- 6b. ring: the apex found by the bisection loop has the requested
+   angle defect.  g ang3 A B N h = 2 pi - N * ang3 A (0,0,h) B is the defect of an apex at height h; ang3 stands for
+   geometry.angle_3pts.  Hypotheses on that real function (named in the trusted base, checked numerically on every run):
+   monotone in h >= 0; g 0 <= d; while the bracket is being enlarged its ends differ by at least eps in defect. *)
+Lemma ring_apex : forall (ang3 : vec R -> vec R -> vec R -> R) (A B : vec R) (N : Z) (d : R),
+  (forall a b, (0 <= a <= b)%R -> (g ang3 A B N a <= g ang3 A B N b)%R) ->
+  (g ang3 A B N 0 <= d)%R ->
+  (forall h1 h2, (h1 = 0 /\ h2 = 10)%R \/ (10 <= h1 /\ h2 = 2 * h1)%R -> (g ang3 A B N h2 < d)%R ->
+     (eps <= Rabs (g ang3 A B N h1 - g ang3 A B N h2))%R) ->
+  forall fuel s, do_while (step ang3 A B N d) fuel (ring_bisect_init Rops) = Some s ->
+  exists h, ring_bisect_apex Rops (fst s) (snd s) = (0, 0, h)%R /\ (Rabs (g ang3 A B N h - d) < eps)%R.
+Proof. exact ring_apex_defect. Qed.
+
+Lemma ring_clamp_range : forall x : R, (0 <= ring_defect_clamp Rops x <= 2 * PI - 1 / 100)%R.
+Proof. exact ring_clamp. Qed.
 
 (* ---------------------------------------------------------------- 7. what a kernel-evaluated run-time check establishes *)
 Lemma runtime_checker_sound V F :
